@@ -10,7 +10,8 @@ add("C16", "checks/c16_floattext.c", ["default-plain", "dtostre-plain", "dtostre
     "of (value bits, site, precision, text) re-decided by py/c16_decimal.py with integer arithmetic only",
     post="py/c16_decimal.py",
     exhaustive=dict(quick=False, thorough=False),
-    rule_more="all powers of two with neighbours; the last six values re-emitted as one ASCII array behind two scalars; decoy context answering from inside the write callback; flavours c89, optall",
+    rule_more="ThreadSanitizer stage (checks/tsan_contexts.c): four threads, each on its own context, run every formatter, reader, the error queue and the registers - the library may keep no state outside the scpi_t; all powers of two with neighbours; the last six values re-emitted as one ASCII array behind two scalars; decoy context answering from inside the write callback; flavours c89, optall",
+    tsan=dict(source="checks/tsan_contexts.c", configs=["default", "dtostre", "noinfo", "heap"], rounds=300),
     technique="differential runtime monitor: every text the real formatter emits is compared with the correctly rounded decimal (glibc %.*e digits + own %g layout rule, "
               "exact 128-bit distance in units of the last requested digit) in-process; a stratified record stream is re-decided offline from the bit pattern with integer arithmetic only",
     level_text="exploration by execution: ~1.4 M values x 17 texts (quick), ~55 M values (thorough) over all enumerable boundary classes plus random bit patterns; the universal claim over 2^64 doubles x 15 precisions is sampled, not enumerated",
